@@ -56,6 +56,10 @@ def oracle(rng, tier):
                         permeate_temperature=Tp, permeate_pressure=pp)
         cs = po.curve_set(m, rng, rng.choice([1, 2]))
         n = rng.choice([1, 2, 5])
+        # the membrane may hold any number of experiments of the OTHER component (a series over several temperatures, with or
+        # without activation energies): they say nothing about the temperature dependence of the first one
+        others = [IdealExperiment(name='o%d' % i, temperature=T + rng.uniform(-30, 30), component=m.second_component, permeance=P2,
+                                  activation_energy=rng.choice([None, 30000.0])) for i in range(rng.choice([0, 0, 1, 2, 3]))]
         entries = {
             'both:driving_force': lambda: pvo.get_partial_fluxes_from_permeate_composition(P1, P2, y, x, T, Tp, pp, ct),
             'both:flux_solver': lambda: pvo.calculate_partial_fluxes(T, x, rng.choice([5e-5, 2.0]), Tp, pp, P1, P2, ct),
@@ -84,9 +88,9 @@ def oracle(rng, tier):
                               second_component=m.second_component, nrtl_params=m.nrtl_params, uniquac_params=m.uniquac_params), xi, 'UNIQUAC'),
             'incomplete:curve_with_neither': lambda: DiffusionCurve(mixture=m, membrane_name='o', feed_temperature=T, feed_compositions=[x]),
             'incomplete:single_experiment_without_ea': lambda: pv.Membrane(name='m', ideal_experiments=IdealExperiments(experiments=[
-                IdealExperiment(name='e', temperature=T + 7.0, component=m.first_component, permeance=P1)])).get_permeance(T, m.first_component),
+                IdealExperiment(name='e', temperature=T + 7.0, component=m.first_component, permeance=P1)] + others)).get_permeance(T, m.first_component),
             'incomplete:activation_energy_single': lambda: pv.Membrane(name='m', ideal_experiments=IdealExperiments(experiments=[
-                IdealExperiment(name='e', temperature=T + 7.0, component=m.first_component, permeance=P1)])).calculate_activation_energy(m.first_component),
+                IdealExperiment(name='e', temperature=T + 7.0, component=m.first_component, permeance=P1)] + others)).calculate_activation_energy(m.first_component),
         }
         name = rng.choice(sorted(entries))
         ok, detail = must_raise(entries[name])
